@@ -3,6 +3,7 @@ package checks
 import (
 	"bytes"
 	"crypto"
+	"crypto/rsa"
 	"fmt"
 	"testing"
 
@@ -181,12 +182,23 @@ func TestC03_SignRoundTrip(t *testing.T) {
 		if genBool.Draw(t, "viaSetters") {
 			m = GenValid(t, p, true)
 			var err error
-			if c, err = m.BuildSetters(); err != nil {
+			if genBool.Draw(t, "sethistory") {
+				// on an object that held ANOTHER valid value of every claim
+				// before (e.g. components first, then the no-measurements form)
+				c, err = m.BuildSettersAfter(GenValid(t, p, true))
+			} else {
+				c, err = m.BuildSetters()
+			}
+			if err != nil {
 				t.Fatalf("valid set cannot be built through setters: %v", err)
 			}
 		}
 		alg := rapid.SampledFrom(icose.AllAlgs).Draw(t, "alg")
 		kp := keyFor(alg, rapid.IntRange(0, 5).Draw(t, "key"))
+		if _, isRSA := kp.Pub.(*rsa.PublicKey); isRSA && rapid.IntRange(0, 2).Draw(t, "oddrsa") == 0 {
+			// an RSA key whose modulus length is not a multiple of 8 bits
+			kp = oddRSAKey(alg, kp.Idx)
+		}
 		mixed := false
 		if (alg == icose.ES256 || alg == icose.ES384 || alg == icose.ES512) && rapid.IntRange(0, 3).Draw(t, "othercurve") == 0 {
 			// go-cose signs with any of the three curves under any ECDSA algorithm
